@@ -339,8 +339,12 @@ def p1_input_panics(F, r):
                     seen_rows.add(row)
                     n_direct += 1
                     inst = f"{row[0]}: {kind} on {','.join(row[2])}"
+                    # rows are confirmed per MODULE: the same operation on the same input fields moved into a helper of the same module keeps its row
+                    same_mod = [v for k, v in P1_DIRECT_GUARDED.items() if k[1] == row[1] and k[2] == row[2] and k[0].split("::")[0] == row[0].split("::")[0]]
                     if row in P1_DIRECT_GUARDED:
                         r.ok(inst, "guarded: " + P1_DIRECT_GUARDED[row])
+                    elif same_mod:
+                        r.ok(inst, "guarded (row of the same module, operation moved into a helper): " + same_mod[0])
                     else:
                         r.fail(inst, f"a value read from the input document ({', '.join(row[2])}) reaches a panicking `{kind}` without a confirmed guard: a well-formed document with an "
                                      f"unexpected value crashes the reader instead of yielding an error code", F.loc(fid, t["ln"]))
@@ -392,6 +396,54 @@ def e1_single_accept_exit(F, r):
         errs = [bi for bi, si, st in mir.stmts(fn) if st["r"]["k"] == "agg" and st["r"].get("n", "").endswith("Result#Err")]
         n += 1
         name = fid.split("::")[-1]
+        if len(oks) > 1:
+            # exits that are part of the rule's shape rather than a skipped rule: (b) the main verdict — `if fine { return Ok(()) } Err(..)`: the sibling edge of the guarding
+            # switch runs straight into an error; (c) nothing to check — the `None` edge of an Option the rule's subject is taken from (`let Some(matrix) = .. else { return Ok(()) }`)
+            P = mir.preds(fn)
+            S = mir.succs(fn)
+            err_set = set(errs)
+
+            def guarding_switch(b):
+                cur, hops = b, 0
+                while hops < 8:
+                    ps = [q for q in P[cur] if q != cur]
+                    if len(ps) != 1:
+                        return None, None
+                    q = ps[0]
+                    if fn["bbs"][q]["t"]["k"] == "switch":
+                        return q, cur
+                    cur, hops = q, hops + 1
+                return None, None
+
+            def straight_to_err(b):
+                cur, hops = b, 0
+                while hops < 40:
+                    if cur in err_set:
+                        return True
+                    if fn["bbs"][cur]["t"]["k"] == "switch" or len(S[cur]) != 1:
+                        return False
+                    cur, hops = S[cur][0], hops + 1
+                return False
+            suspicious = []
+            for b, ln in oks:
+                sb, via = guarding_switch(b)
+                if sb is None:
+                    continue
+                tt = fn["bbs"][sb]["t"]
+                edges = [tb for _, tb in tt["tg"]] + [tt["else"]]
+                if any(e != via and straight_to_err(e) for e in edges):
+                    continue            # (b)
+                dd = [d for d in mir.defs(fn).get(tt["o"].get("l"), []) if d[0] == "s"] if mir.is_place(tt["o"]) else []
+                if len(dd) == 1 and dd[0][3]["r"]["k"] == "discr" and mir.is_place(dd[0][3]["r"]["o"][0]):
+                    oty = fn["locals"][dd[0][3]["r"]["o"][0]["l"]] or ""
+                    none_edge = [tb for v, tb in tt["tg"] if v == 0]
+                    if oty.startswith("core::option::Option<") and not dd[0][3]["r"]["o"][0]["p"] and ((none_edge and none_edge[0] == via) or (not none_edge and tt["else"] == via)):
+                        continue        # (c)
+                suspicious.append((b, ln))
+            if len(oks) - len(suspicious) >= 1 and len(suspicious) == 0:
+                r.ok(name, f"{len(oks)} accepting exits, all part of the rule's own verdict (main verdict / nothing-to-check on a missing Option)")
+                continue
+            oks = suspicious + [x for x in oks if x not in suspicious][:1]
         if len(oks) <= 1:
             r.ok(name, "single accepting exit")
         elif name in EARLY_OK and len(oks) == 2:
